@@ -23,9 +23,23 @@ _optnames = [o['name'] for o in gen.parse_options(REPO)]
 _iarf = [o['name'] for o in gen.parse_options(REPO) if o['type'] == 'iarf_e']
 
 
-def _site(f):
-    """site of a failed attribution clause. The generated ensures list is: 2 fixed clauses, then one general clause
-    per IARF option (registry order), then one strict clause (state outside every recorded known deviation) per option."""
+def _site_desc(f):
+    """site of a failed attribution clause of the direct VC proof: the assertion text names the option."""
+    import re
+    d = f.get('description') or ''
+    mo = re.search(r'g_rule_id == (\d+)', d)
+    mn = re.search(r'== optv_(\w+)', d)
+    if not mo or not mn:
+        return 'clause=fixed' if 'postcondition' in d else ''
+    return 'rule=%s clause=%s' % (mn.group(1), 'strict' if 'KNOWN_DEV' in d else 'general')
+
+
+def _known_rules():
+    return [l.strip() for l in open(os.path.join(os.path.dirname(os.path.abspath(__file__)), 'known_dev_rules.txt')) if l.strip() and not l.startswith('#')]
+
+
+def _site_index(f):
+    """site of a failed clause of the DFCC proof: 2 fixed clauses, then the generated order of tools/gen.py gen_space."""
     import re
     mo = re.search(r'postcondition\.(\d+)', f.get('obligation', ''))
     if not mo:
@@ -33,19 +47,49 @@ def _site(f):
     n = int(mo.group(1)) - 3
     if n < 0:
         return 'clause=fixed'
-    kind = 'general' if n < len(_iarf) else 'strict'
-    n = n % len(_iarf)
-    return 'rule=%s clause=%s' % (_iarf[n], kind)
+    known = _known_rules()
+    sites = ['rule=%s clause=general' % r for r in _iarf if r not in known] + ['rule=%s clause=strict' % r for r in _iarf if r in known]
+    return sites[n] if n < len(sites) else 'clause=?'
 
 
+_DS_RULES = {'do_space': [('D10', _names), ('D8', [(r'auto arg = iarf_flags_t\{', 'iarf_flags_t arg = iarf_flags_t{', 'auto of a flags temporary: the front end deduces int')]), ('D2', {'types': ['iarf_flags_t']}), ('D1', {'no_space_table': 'array', 'add_space_table': 'array', 'IGNORE_space_table': 'array', '__auto__': {'no_space_table': 'no_space_table_t', 'add_space_table': 'no_space_table_t', 'IGNORE_space_table': 'no_space_table_t'}})]}
+_SAFETY = ['--bounds-check', '--pointer-check', '--pointer-overflow-check', '--signed-overflow-check', '--div-by-zero-check', '--undefined-shift-check', '--unwinding-assertions']
+def _table_sizes():
+    import re
+    t = open(os.path.join(REPO, 'src/add_space_table.h')).read()
+    out = {}
+    for name in ('add_space_table', 'no_space_table', 'IGNORE_space_table'):
+        a = t.index('const no_space_table_t %s[] =' % name)
+        out[name] = len(re.findall(r'^\s*\{\s*CT_', t[a:t.index('};', a)], re.M))
+    return out
+
+
+_TS = _table_sizes()
+# loops of do_space in source order: two chunk walks (bounded by the navigation fuel <= 6), then the scans of IGNORE_space_table,
+# no_space_table, add_space_table (bound = number of entries + 2; a table that grows is followed, a wrong count fails an unwinding assertion)
+_UNWIND = [('do_space', 0, 9), ('do_space', 1, 9), ('do_space', 2, _TS['IGNORE_space_table'] + 2), ('do_space', 3, _TS['no_space_table'] + 2), ('do_space', 4, _TS['add_space_table'] + 2)]
 PROOFS = [
-    Proof('do_space', impl='contracts/C19/space.impl.cpp', spec='contracts/C19/space.spec.c', enforce='w_do_space/do_space_contract',
-          rules={'do_space': [('D10', _names), ('D8', [(r'auto arg = iarf_flags_t\{', 'iarf_flags_t arg = iarf_flags_t{', 'auto of a flags temporary: the front end deduces int')]), ('D2', {'types': ['iarf_flags_t']}), ('D1', {'no_space_table': 'array', 'add_space_table': 'array', 'IGNORE_space_table': 'array', '__auto__': {'no_space_table': 'no_space_table_t', 'add_space_table': 'no_space_table_t', 'IGNORE_space_table': 'no_space_table_t'}})]},
-          loops=L, canaries=3, timeout=3000, object_bits=12, drop_flags=['--conversion-check'],
-          note='unsigned<->int conversions of option values / code points are implementation-defined, not undefined: conversion check off', functions=['space.cpp:do_space'],
-          expect=['do_space_contract.postcondition']),
+    # quick + thorough: the contract as a direct verification condition (see the PLAIN_VC block of space.spec.c)
+    Proof('do_space', impl='contracts/C19/space.impl.cpp', spec='contracts/C19/space.spec.c', harness='h_do_space_vc', plain=True, no_contract=True,
+          rules=_DS_RULES, defines=['PLAIN_VC'], canaries=3, timeout=1500, object_bits=12, cbmc_flags=_SAFETY, unwind_loops=_UNWIND, slice_formula=True, nondet_static='.*(optv_|g_pool|g_null_chunk|cpd|QT_SIGNAL_SLOT|restoreValues|g_rule_|g_fwd_fuel).*',
+          functions=['space.cpp:do_space'], expect=['postcondition: do_space'],
+          note='direct VC (assume requires / call / assert ensures), no goto-instrument pass; the three table scans are unwound completely (bounds = table sizes read from add_space_table.h, '
+               'unwinding assertions on) and the two chunk walks are bounded by the navigation fuel of the environment; the assigns clause is NOT checked in this '
+               'proof (it is in do_space_dfcc, thorough tier). unsigned<->int conversions are implementation-defined, not undefined: conversion check off',
+          mutants=[('returns_neighbour_option', r'log_rule_id\(RULE_sp_catch_brace\);(\s*)return\(options::sp_catch_brace\(\)\);', r'log_rule_id(RULE_sp_catch_brace);\1return(options::sp_sparen_brace());', 'postcondition'),
+                   ('arith_returns_assign', r'log_rule_id\(RULE_sp_arith\);(\s*)return\(options::sp_arith\(\)\);', r'log_rule_id(RULE_sp_arith);\1return(options::sp_assign());', 'postcondition'),
+                   ('remove_bit_dropped', r'log_rule_id\(RULE_sp_before_semi\);(\s*)return\(options::sp_before_semi\(\)\);', r'log_rule_id(RULE_sp_before_semi);\1return(options::sp_before_semi() & IARF_ADD);', 'postcondition')]),
+
+    # thorough only: the same contract enforced through DFCC, frame (assigns clause) included, loops closed by loop contracts
+    Proof('do_space_dfcc', impl='contracts/C19/space.impl.cpp', spec='contracts/C19/space.spec.c', enforce='w_do_space/do_space_contract', harness='h_do_space',
+          rules=_DS_RULES, loops=L, canaries=3, timeout=3000, object_bits=12, drop_flags=['--conversion-check'], slice_formula=True, defines=['NO_KNOWN_CLAUSES'],
+          functions=['space.cpp:do_space'], expect=['do_space_contract.postcondition'],
+          note='DFCC-enforced form (function contract + assigns clause + 5 loop contracts); 12-15 min, hence thorough tier only; the general clauses of rules with a recorded '
+               'known deviation are left to proof do_space'),
 ]
-PROOFS[0].site = _site
+PROOFS[1].thorough_only = True
+PROOFS[0].site = _site_desc
+PROOFS[1].site = _site_index
 
 
 _DS = ['c_do_space/do_space_result_contract']
@@ -97,6 +141,7 @@ def _replay(repo, failure, workroot):
 
 
 PROOFS[0].replay = _replay
+PROOFS[1].replay = _replay
 
 EXPLANATION = ('Kernel of C19. do_space() - the real 3400-line decision function - is executed once symbolically with every chunk attribute unconstrained and every '
                'option value anywhere in its documented range; for each of the IARF options the contract has one clause "if the last rule logged is this option then '
